@@ -153,10 +153,40 @@ def run(repo, rep, tier):
     # ---- R4 cells written at their own position, in file order
     sv = repo.func("_csv2numbers.py", "Converter.save")
     s = U(sv).replace(" ", "").replace("\n", "")
-    ok = "forrow_num,rowinenumerate(data):forcol_num,valueinenumerate(row):table.write(row_num,col_num,value)" in s
-    rep.ob("C20.R4", sv, "save writes cell (i, j) of the grid at table position (i, j)", ok, "" if ok else "rows/columns are transposed, skipped or offset", key="C20.R4@save:positions")
-    ok = "data=[]ifself.no_headerelse[self.header]" in s and "data+=[row.values()forrowinself.data]" in s
-    rep.ob("C20.R4", sv, "header row first (unless --no-header), then the data rows in order", ok, "", key="C20.R4@save:header-first")
+    from ..symexec import list_builder
+    writes = [c for c in body_walk(sv) if isinstance(c, ast.Call) and last_attr(c.func) == "write" and len(c.args) == 3 and not c.keywords]
+    ok = False
+    grid = None
+    if len(writes) == 1:
+        w = writes[0]
+        loops = [p for p in _anc(w) if isinstance(p, ast.For)]
+        if len(loops) == 2:
+            inner, outer = loops
+            def enum(lp):
+                it = lp.iter
+                if isinstance(it, ast.Call) and call_name(it) == "enumerate" and len(it.args) == 1 and isinstance(lp.target, ast.Tuple) and len(lp.target.elts) == 2:
+                    return U(lp.target.elts[0]), U(lp.target.elts[1]), U(it.args[0])
+                return None
+            eo, ei = enum(outer), enum(inner)
+            if eo and ei:
+                ok = [U(a) for a in w.args] == [eo[0], ei[0], ei[1]] and ei[2] == eo[1] and not any(
+                    isinstance(x, (ast.If, ast.Continue, ast.Break)) and x.lineno <= w.lineno for x in ast.walk(outer) if x is not outer)
+                grid = eo[2]
+    rep.ob("C20.R4", writes[0] if writes else sv, "save writes cell (i, j) of the grid at table position (i, j)", ok, "" if ok else "rows/columns are transposed, skipped or offset", key="C20.R4@save:positions")
+    segs = list_builder(sv, grid) if grid else None
+    want = [("if", "notself.no_header", [("item", "self.header")]), ("each", "_.values()", "self.data")]
+    def norm(sg):
+        out = []
+        for k in sg or []:
+            if k[0] == "if":
+                t = k[1].replace(" ", "")
+                t = {"not(notself.no_header)": "self.no_header", "notnotself.no_header": "self.no_header"}.get(t, t)
+                out.append(("if", t, norm(k[2])))
+            else:
+                out.append(tuple(x.replace(" ", "") if isinstance(x, str) else x for x in k))
+        return out
+    ok = segs is not None and norm(segs) == want
+    rep.ob("C20.R4", sv, "header row first (unless --no-header), then the data rows in order", ok, "" if ok else f"the grid is built as {segs}", key="C20.R4@save:header-first")
     ok = "doc.save(self.output_filename)" in s
     rep.ob("C20.R4", sv, "document saved to the requested output", ok, "", key="C20.R4@save:output")
     s = U(td).replace(" ", "").replace("\n", "")
